@@ -15,6 +15,7 @@ import os
 
 from vlib.core import COQ, REPO
 from vlib.py2coq import write_if_changed
+from vlib import astnorm as N
 
 W = os.path.join("commonroad", "common", "writer")
 FILES = {"xml": os.path.join(W, "file_writer_xml.py"), "pb": os.path.join(W, "file_writer_protobuf.py"),
@@ -72,44 +73,72 @@ def ref(src):
     return norm(ast.parse(src).body)
 
 
-POLICY_CORE = '''
-if pathlib.Path(filename).is_file():
-    if overwrite_existing_file is OverwriteExistingFile.ASK_USER_INPUT:
-        overwrite = input()
-    elif overwrite_existing_file is OverwriteExistingFile.SKIP:
-        overwrite = 'n'
-    else:
-        overwrite = 'y'
-    if overwrite == 'n':
-        return RET
-    else:
-        pass
+KEEP = ("_write_header", "_add_all_objects_from_scenario", "_add_all_planning_problems_from_planning_problem_set",
+        "_handle_file_path", "check_validity_of_commonroad_file", "_dump", "_get_suffix", "_serialize_write_msg")
+
+POLICY_SRC = '''
+def _handle_file_path(self, filename, overwrite_existing_file):
+    if filename is None:
+        filename = DEFAULT
+    if pathlib.Path(filename).is_file():
+        if overwrite_existing_file is OverwriteExistingFile.ASK_USER_INPUT:
+            overwrite = input()
+        elif overwrite_existing_file is OverwriteExistingFile.SKIP:
+            overwrite = 'n'
+        else:
+            overwrite = 'y'
+        if overwrite == 'n':
+            return RET_SKIP
+    RET_GO
 '''
 
 
-def policy_ref(default_name, ret):
-    src = f"if filename is None:\n    filename = {default_name}\n" + POLICY_CORE.replace("RET", ret)
-    return ref(src)
+class _NoPrint(ast.NodeTransformer):
+    def visit_Expr(self, n):
+        if isinstance(n.value, ast.Call) and ast.unparse(n.value.func) == "print":
+            return ast.Pass()
+        return n
+
+    def visit_Call(self, n):
+        self.generic_visit(n)
+        if ast.unparse(n.func) == "input":
+            return ast.Call(func=n.func, args=[], keywords=[])
+        return n
+
+
+def policy_text(fn, methods=None):
+    """the overwrite policy as a decision tree (vlib/astnorm.py), prints and prompt texts dropped"""
+    fn = _NoPrint().visit(copy.deepcopy(fn))
+    ast.fix_missing_locations(fn)
+    return N.alpha_text(N.normal(fn, methods or {}, KEEP))
+
+
+def policy_ref(default, ret_skip, ret_go):
+    src = POLICY_SRC.replace("DEFAULT", default).replace("RET_SKIP", ret_skip).replace("RET_GO", ret_go)
+    return policy_text(ast.parse(src).body[0])
+
+
+def fold(stmts):
+    """`if True / False:` left by inlining a helper with a constant argument"""
+    out = []
+    for s in stmts:
+        if isinstance(s, ast.If) and isinstance(s.test, ast.Constant) and isinstance(s.test.value, bool):
+            out.extend(fold(s.body if s.test.value else s.orelse))
+        else:
+            out.append(s)
+    return out
 
 
 def norm_policy(stmts):
-    out = []
-    for s in stmts:
-        s = copy.deepcopy(s)
-        # replace print-only branches by pass before stripping
-        for n in ast.walk(s):
-            for fld in ("body", "orelse"):
-                lst = getattr(n, fld, None)
-                if isinstance(lst, list) and lst and all(isinstance(x, ast.Expr) and isinstance(x.value, ast.Call)
-                                                         and ast.unparse(x.value.func) == "print" for x in lst):
-                    setattr(n, fld, [ast.Pass()])
-        out.append(s)
-    return norm(out)
+    """the policy written out inside a write method: the statements as a function of their own"""
+    fn = ast.parse("def _handle_file_path(self, filename, overwrite_existing_file):\n    pass").body[0]
+    fn.body = [copy.deepcopy(s) for s in stmts] + [ast.parse("GO()").body[0]]
+    return policy_text(fn)
 
 
-def parse_write(fn, fmt, with_validate):
+def parse_write(fn, fmt, with_validate, methods):
     self_ = fn.args.args[0].arg
-    body = body_of(fn)
+    body = fold(body_of(N.inline(fn, methods, 0, KEEP)))
     steps, i = [], 0
     reset = {"xml": f"{self_}._root_node = etree.Element('commonRoad')",
              "pb": f"{self_}._commonroad_msg = commonroad_pb2.CommonRoad()"}[fmt]
@@ -126,7 +155,8 @@ def parse_write(fn, fmt, with_validate):
             continue
         if u.startswith("if filename is None:"):
             # the policy written out in the method (XML write_scenario_to_file)
-            if i + 1 >= len(body) or norm_policy(body[i:i + 2]) != policy_ref(f"str({self_}.scenario.scenario_id)", ""):
+            if i + 1 >= len(body) or norm_policy(body[i:i + 2]) != policy_ref(f"str({self_}.scenario.scenario_id)",
+                                                                              "", "GO()"):
                 bad(s, "inline overwrite policy differs from the expected one")
             steps.append("WPolicy")
             i += 2
@@ -162,22 +192,25 @@ def text():
         raw = open(os.path.join(REPO, rel), "rb").read()
         trees[k], sha[k] = ast.parse(raw), hashlib.sha1(raw).hexdigest()
     hp = method(trees["iface"], "FileWriter", "_handle_file_path")
-    if norm_policy(body_of(hp)) != policy_ref("str(self.scenario.scenario_id) + self._get_suffix()", "''") + "\nreturn filename":
-        raise SourceShapeError("FileWriter._handle_file_path is not the expected text:\n" + norm_policy(body_of(hp)))
+    want = policy_ref("str(self.scenario.scenario_id) + self._get_suffix()", "''", "return filename")
+    if policy_text(hp, N.class_methods(trees["iface"], "FileWriter")) != want:
+        raise SourceShapeError("FileWriter._handle_file_path is not the expected text:\n"
+                               + policy_text(hp, N.class_methods(trees["iface"], "FileWriter")) + "\n-- expected --\n" + want)
     init = method(trees["iface"], "FileWriter", "__init__")
     texts = [ast.unparse(s) for s in body_of(init)]
     if "precision.decimals = decimal_precision" not in texts or "self._decimal_precision = decimal_precision" not in texts:
         raise SourceShapeError("FileWriter.__init__ does not store and apply decimal_precision as expected")
+    xm, pm = N.class_methods(trees["xml"], "XMLFileWriter"), N.class_methods(trees["pb"], "ProtobufFileWriter")
     out = ["(* GENERATED on every run by harness/props/c15_src.py from the syntax trees of the write methods of XMLFileWriter "
            "and ProtobufFileWriter.  Do not edit.",
            "   sources: " + ", ".join(f"{FILES[k]} sha1={sha[k]}" for k in sorted(FILES)) + " *)",
            "From Coq Require Import List.", "From CR Require Import Model.WritersSrc.", "Import ListNotations.", "",
-           f"Definition src_xml_write : list wstep := {parse_write(method(trees['xml'], 'XMLFileWriter', 'write_to_file'), 'xml', True)}.",
+           f"Definition src_xml_write : list wstep := {parse_write(method(trees['xml'], 'XMLFileWriter', 'write_to_file'), 'xml', True, xm)}.",
            f"Definition src_xml_write_scenario : list wstep := "
-           f"{parse_write(method(trees['xml'], 'XMLFileWriter', 'write_scenario_to_file'), 'xml', False)}.",
-           f"Definition src_pb_write : list wstep := {parse_write(method(trees['pb'], 'ProtobufFileWriter', 'write_to_file'), 'pb', True)}.",
+           f"{parse_write(method(trees['xml'], 'XMLFileWriter', 'write_scenario_to_file'), 'xml', False, xm)}.",
+           f"Definition src_pb_write : list wstep := {parse_write(method(trees['pb'], 'ProtobufFileWriter', 'write_to_file'), 'pb', True, pm)}.",
            f"Definition src_pb_write_scenario : list wstep := "
-           f"{parse_write(method(trees['pb'], 'ProtobufFileWriter', 'write_scenario_to_file'), 'pb', False)}.",
+           f"{parse_write(method(trees['pb'], 'ProtobufFileWriter', 'write_scenario_to_file'), 'pb', False, pm)}.",
            "Definition src_init : init_form := InitSetsPrecision.",
            "Definition src_policy : policy_form := PolicyStd.", ""]
     return "\n".join(out)
